@@ -382,7 +382,9 @@ def r14_1(ctx):
             if sorted_ok:
                 ctx.ok("hash iteration is sorted before use|%s" % b.name, site=site)
                 continue
-            ex = [r for (pat, r) in HASH_ITER_EXEMPT if re.search(pat, b.name)]
+            # a closure belongs to the function it is written in
+            owner = b.root if b.kind == "Closure" and b.root else b.name
+            ex = [r for (pat, r) in HASH_ITER_EXEMPT if re.search(pat, b.name) or re.search(pat, owner)]
             if ex:
                 ctx.ok("hash iteration exempt|%s" % b.name, site=site, detail=ex[0])
             else:
@@ -395,26 +397,55 @@ ADAPTORS = ("std::iter::Iterator::filter_map", "std::iter::Iterator::map", "std:
 
 
 def _flows_into_sort(b, local):
+    """does the hash iteration end up in a collection that is sorted?  Followed: moves/refs, item-preserving adaptors and `next`,
+    values computed from an item (aggregates, `find(item)` ..: anything built from the item in the loop body is as unordered as the
+    items), and `Vec::push(v, x)` of such a value, which makes `v` the collection."""
     seen = set()
     work = [local]
+
+    def root_local(op):
+        """the local a `&mut v` operand refers to"""
+        lv_seen = set()
+        p = C.op_place(op)
+        while p is not None and p["l"] not in lv_seen:
+            lv_seen.add(p["l"])
+            ds = [r for r in b.defs().get(p["l"], []) if r[0] == "assign"]
+            if len(ds) == 1 and ds[0][3]["rv"]["k"] in ("ref", "copyforderef"):
+                p = ds[0][3]["rv"]["pl"]
+            elif len(ds) == 1 and ds[0][3]["rv"]["k"] == "use" and C.op_place(ds[0][3]["rv"]["op"]) is not None:
+                p = C.op_place(ds[0][3]["rv"]["op"])
+            else:
+                break
+        return p["l"] if p is not None else None
+
     while work:
         l = work.pop()
         if l in seen:
             continue
         seen.add(l)
         for bb, si, st in b.stmts():
-            if st["k"] == "assign" and st["rv"]["k"] in ("use", "ref") and not st["lhs"]["p"]:
-                src = C.op_place(st["rv"]["op"]) if st["rv"]["k"] == "use" else st["rv"]["pl"]
+            if st["k"] != "assign" or st["lhs"]["p"]:
+                continue
+            rv = st["rv"]
+            if rv["k"] in ("use", "ref", "copyforderef"):
+                src = C.op_place(rv["op"]) if rv["k"] == "use" else rv["pl"]
                 if src and src["l"] == l:
                     work.append(st["lhs"]["l"])
+            elif rv["k"] == "aggregate":
+                if any((C.op_place(o) or {}).get("l") == l for o in rv["ops"]):
+                    work.append(st["lhs"]["l"])
         for bb, t in b.calls():
+            nm = C.callee_name(t)
             if t["args"] and (C.op_place(t["args"][0]) or {}).get("l") == l:
-                nm = C.callee_name(t)
                 if T.SORT_RE.match(nm):
                     # every later for-loop over the collection is after the sort
                     return True
-                if nm in ADAPTORS or nm.endswith("::deref_mut") or nm.endswith("::deref"):
+                if nm in ADAPTORS or T.item_preserving(nm) or nm.endswith("::deref_mut") or nm.endswith("::deref"):
                     work.append(t["dest"]["l"])
+            if nm == "std::vec::Vec::<T, A>::push" and len(t["args"]) == 2 and (C.op_place(t["args"][1]) or {}).get("l") == l:
+                v = root_local(t["args"][0])
+                if v is not None:
+                    work.append(v)
     return False
 
 
@@ -1116,9 +1147,14 @@ def _component_deltas(prog, b):
             if s_["k"] != "assign":
                 continue
             lhs, rv = s_["lhs"], s_["rv"]
-            if not lhs["p"] and lhs["l"] in fidx and rv["k"] == "use":
-                op = rv["op"]
-                env[fidx[lhs["l"]]] = (C.op_const(op) == "true") if op["k"] == "const" else env[fidx[op["pl"]["l"]]]
+            if not lhs["p"] and lhs["l"] in fidx:
+                op = rv["op"] if rv["k"] == "use" else None
+                if op is None:
+                    env[fidx[lhs["l"]]] = None
+                elif op["k"] == "const":
+                    env[fidx[lhs["l"]]] = True if C.op_const(op) == "true" else False if C.op_const(op) == "false" else None
+                else:
+                    env[fidx[lhs["l"]]] = env[fidx[op["pl"]["l"]]] if op["k"] in ("copy", "move") and not op["pl"]["p"] and op["pl"]["l"] in fidx else None
             if rv["k"] == "use" and not lhs["p"]:
                 src = C.op_place(rv["op"])
                 if src is not None and not src["p"] and src["l"] in st:
@@ -1133,6 +1169,8 @@ def _component_deltas(prog, b):
         if t["k"] == "call":
             nm = C.callee_name(t)
             dest = t["dest"]["l"]
+            if not t["dest"]["p"] and dest in fidx:
+                env[fidx[dest]] = None
 
             def target(i):
                 """the tracked local behind argument i (through `&mut p` temporaries)"""
